@@ -71,3 +71,181 @@ pub broadcast proof fn lemma_flags_or(h: Header)
     assert(((op & 0x0f) << 3) as u8 == 0x78u8 & ((op << 3) as u8)) by(bit_vector);
     assert(rc & 0x0f == 0x0fu8 & ((rc << 0) as u8)) by(bit_vector);
 }
+
+// ---- C04: what was written decodes to what was meant (the independent reading `spec_name` of unit wire_decode, RFC 1035 4.1.4) ----
+// a name's plain label encoding sits at offset off
+pub open spec fn enc_at(b: Seq<u8>, off: int, n: DomainName) -> bool {
+    0 <= off && off + labels_sum(n.labels@) <= b.len() && b.subrange(off, off + labels_sum(n.labels@)) == enc_labels(n.labels@)
+}
+pub open spec fn ptr_off(p: u16) -> int { (p & 0x3fff) as int }
+impl WritableBuffer {
+    // the global invariant tying the pointer table to the byte image: every memoised name was written, uncompressed, at the offset its pointer addresses
+    pub closed spec fn table_good(&self) -> bool {
+        &&& self.table_ok()
+        &&& forall|n: DomainName| #[trigger] self.name_pointers@.contains_key(n) ==> n.wf() && enc_at(self.bytes(), ptr_off(self.name_pointers@[n]), n)
+    }
+}
+pub proof fn lemma_enc_at_prefix(b: Seq<u8>, b2: Seq<u8>, off: int, n: DomainName)
+    requires is_prefix(b, b2), enc_at(b, off, n)
+    ensures enc_at(b2, off, n)
+{ assert(b2.subrange(off, off + labels_sum(n.labels@)) =~= b.subrange(off, off + labels_sum(n.labels@))); }
+pub proof fn lemma_enc_labels_front(l: Label, rest: Seq<Label>)
+    ensures enc_labels(seq![l] + rest) == seq![l.v().len() as u8] + l.v() + enc_labels(rest)
+    decreases rest.len()
+{
+    if rest.len() == 0 {
+        assert(seq![l] + rest =~= seq![l]);
+        assert(seq![l].drop_last() =~= Seq::<Label>::empty());
+        assert(seq![l].last() == l);
+        assert(enc_labels(Seq::<Label>::empty()) =~= Seq::<u8>::empty());
+        assert(enc_labels(seq![l]) == enc_labels(seq![l].drop_last()) + seq![l.v().len() as u8] + l.v());
+        assert(enc_labels(seq![l]) =~= seq![l.v().len() as u8] + l.v());
+        assert(seq![l.v().len() as u8] + l.v() + enc_labels(rest) =~= seq![l.v().len() as u8] + l.v());
+    } else {
+        assert((seq![l] + rest).drop_last() =~= seq![l] + rest.drop_last());
+        lemma_enc_labels_front(l, rest.drop_last());
+        assert((seq![l] + rest).last() == rest.last());
+        assert(enc_labels(seq![l] + rest) =~= seq![l.v().len() as u8] + l.v() + enc_labels(rest));
+    }
+}
+pub proof fn lemma_lower_wf(l: Label)
+    requires l.wf()
+    ensures lower_seq(l.v()) == l.v()
+{ assert(lower_seq(l.v()) =~= l.v()); }
+// reading a plain label encoding back: the labels, and the offset just after them
+pub proof fn lemma_decode_plain(b: Seq<u8>, s: int, off: int, ls: Seq<Label>)
+    requires 0 <= s <= off, off + labels_sum(ls) <= b.len(), b.subrange(off, off + labels_sum(ls)) == enc_labels(ls), shape_ok(ls), all_labels_wf(ls)
+    ensures spec_name(b, s, off) == Some((vals(ls), off + labels_sum(ls)))
+    decreases ls.len()
+{
+    let l = ls[0]; let rest = ls.subrange(1, ls.len() as int);
+    assert(ls =~= seq![l] + rest);
+    lemma_enc_labels_front(l, rest);
+    lemma_labels_sum_concat(seq![l], rest);
+    lemma_labels_sum_one(seq![l]);
+    let e = enc_labels(ls);
+    let n = l.v().len() as int;
+    assert(l.wf());
+    assert(b[off] == e[0]) by { assert(b.subrange(off, off + labels_sum(ls))[0] == b[off]); }
+    assert(e[0] == n as u8);
+    if ls.len() == 1 {
+        assert(n == 0);
+        assert(vals(ls) =~= seq![Seq::<u8>::empty()]) by { assert(l.v() =~= Seq::<u8>::empty()); }
+    } else {
+        assert(n > 0 && n <= 63);
+        assert(b.subrange(off + 1, off + 1 + n) =~= l.v()) by {
+            assert forall|i: int| 0 <= i < n implies b[off + 1 + i] == l.v()[i] by { assert(b.subrange(off, off + labels_sum(ls))[1 + i] == e[1 + i]); }
+        }
+        lemma_lower_wf(l);
+        assert(b.subrange(off + 1 + n, off + labels_sum(ls)) =~= enc_labels(rest)) by {
+            assert forall|i: int| 0 <= i < enc_labels(rest).len() implies b[off + 1 + n + i] == enc_labels(rest)[i] by { assert(b.subrange(off, off + labels_sum(ls))[1 + n + i] == e[1 + n + i]); }
+            lemma_enc_labels_len(rest);
+        }
+        assert(shape_ok(rest) && all_labels_wf(rest)) by {
+            assert(rest.last() == ls.last());
+            assert forall|i: int| 0 <= i < rest.len() implies (#[trigger] rest[i]).wf() by { assert(rest[i] == ls[i + 1]); }
+            assert forall|i: int| 0 <= i < rest.len() - 1 implies (#[trigger] rest[i]).v().len() > 0 by { assert(rest[i] == ls[i + 1]); }
+        }
+        lemma_decode_plain(b, s, off + 1 + n, rest);
+        assert(vals(ls) =~= seq![l.v()] + vals(rest));
+    }
+}
+proof fn lemma_ptr_split(p: u16) by(bit_vector)
+    requires (p >> 14) == 3
+    ensures ((p / 256) as u8) >= 192u8, ((((p / 256) as u8) & 0x3f) as u16) * 256 + ((p % 256) as u8) as u16 == (p & 0x3fff)
+{}
+// reading a compression pointer back: the name it addresses, and the offset just after the two pointer octets
+pub proof fn lemma_decode_pointer(b: Seq<u8>, pos: int, p: u16, n: DomainName)
+    requires (p >> 14) == 3, 0 <= pos, pos + 2 <= b.len(), b[pos] == (p / 256) as u8, b[pos + 1] == (p % 256) as u8,
+        n.wf(), enc_at(b, ptr_off(p), n), ptr_off(p) < pos
+    ensures spec_name(b, pos, pos) == Some((vals(n.labels@), pos + 2))
+{
+    lemma_ptr_split(p);
+    lemma_decode_plain(b, ptr_off(p), ptr_off(p), n.labels@);
+    assert(be16(b[pos] & 0x3f, b[pos + 1]) as int == ptr_off(p));
+}
+
+proof fn lemma_codec_table_entry(w: WritableBuffer, n: DomainName)
+    requires w.table_good(), w.name_pointers@.contains_key(n)
+    ensures n.wf(), enc_at(w.bytes(), ptr_off(w.name_pointers@[n]), n), ptr_tagged(w.name_pointers@[n]), !name_is_root(n)
+{}
+// appending bytes keeps the table invariant when the table is unchanged
+proof fn lemma_codec_table_prefix(w0: WritableBuffer, w1: WritableBuffer)
+    requires w0.table_good(), is_prefix(w0.bytes(), w1.bytes()), w1.name_pointers == w0.name_pointers
+    ensures w1.table_good()
+{
+    assert forall|n: DomainName| #[trigger] w1.name_pointers@.contains_key(n) implies n.wf() && enc_at(w1.bytes(), ptr_off(w1.name_pointers@[n]), n) by {
+        lemma_enc_at_prefix(w0.bytes(), w1.bytes(), ptr_off(w0.name_pointers@[n]), n);
+    }
+}
+// ... and when the only new entry is the name just written, at the offset it was written at
+proof fn lemma_codec_table_extend(w0: WritableBuffer, w1: WritableBuffer, me: DomainName)
+    requires w0.table_good(), is_prefix(w0.bytes(), w1.bytes()), me.wf(), !name_is_root(me) || !w1.name_pointers@.contains_key(me),
+        forall|n: DomainName| #[trigger] w1.name_pointers@.contains_key(n) ==> (w0.name_pointers@.contains_key(n) && w1.name_pointers@[n] == w0.name_pointers@[n]) || n == me,
+        !w0.name_pointers@.contains_key(me) && w1.name_pointers@.contains_key(me) ==> ptr_ok(w1.name_pointers@[me], w0.bytes().len()),
+        w0.name_pointers@.contains_key(me) ==> w1.name_pointers@.contains_key(me) && w1.name_pointers@[me] == w0.name_pointers@[me],
+        enc_at(w1.bytes(), w0.bytes().len() as int, me),
+    ensures w1.table_good()
+{
+    assert forall|n: DomainName| #[trigger] w1.name_pointers@.contains_key(n) implies
+        ptr_tagged(w1.name_pointers@[n]) && !name_is_root(n) && n.wf() && enc_at(w1.bytes(), ptr_off(w1.name_pointers@[n]), n) by {
+        if w0.name_pointers@.contains_key(n) && w1.name_pointers@[n] == w0.name_pointers@[n] {
+            lemma_enc_at_prefix(w0.bytes(), w1.bytes(), ptr_off(w0.name_pointers@[n]), n);
+        } else {
+            assert(n == me);
+        }
+    }
+}
+
+// reading a name only looks at octets before the end of the buffer it succeeds on: appending octets changes nothing
+pub proof fn lemma_spec_name_prefix(b1: Seq<u8>, b2: Seq<u8>, s: int, p: int)
+    requires is_prefix(b1, b2), spec_name(b1, s, p) is Some
+    ensures spec_name(b2, s, p) == spec_name(b1, s, p)
+    decreases s, b1.len() - p
+{
+    if 0 <= s <= p < b1.len() {
+        let size = b1[p];
+        assert(b2[p] == size);
+        if size == 0 {
+        } else if size <= 63 {
+            assert(b1.subrange(p + 1, p + 1 + size) =~= b2.subrange(p + 1, p + 1 + size));
+            lemma_spec_name_prefix(b1, b2, s, p + 1 + size);
+        } else if size >= 192 {
+            assert(b2[p + 1] == b1[p + 1]);
+            let ptr = be16(size & 0x3f, b1[p + 1]) as int;
+            lemma_spec_name_prefix(b1, b2, ptr, ptr);
+        }
+    }
+}
+pub proof fn lemma_name_at_prefix(b1: Seq<u8>, b2: Seq<u8>, p: int)
+    requires is_prefix(b1, b2), name_at(b1, p) is Some
+    ensures name_at(b2, p) == name_at(b1, p)
+{ lemma_spec_name_prefix(b1, b2, p, p); }
+
+// the RDLENGTH back-patch: two octets between the record's fixed part and its RDATA are overwritten; no memoised name covers them
+proof fn lemma_codec_table_patch(w_mid: WritableBuffer, w_pre: WritableBuffer, w_post: WritableBuffer)
+    requires w_mid.table_good(), w_pre.table_good(), is_prefix(w_mid.bytes(), w_pre.bytes()),
+        w_pre.bytes().len() >= w_mid.bytes().len() + 2, w_post.bytes().len() == w_pre.bytes().len(),
+        forall|i: int| 0 <= i < w_pre.bytes().len() && i != w_mid.bytes().len() && i != w_mid.bytes().len() + 1 ==> w_post.bytes()[i] == w_pre.bytes()[i],
+        w_post.name_pointers == w_pre.name_pointers,
+        forall|n: DomainName| #[trigger] w_pre.name_pointers@.contains_key(n) ==>
+            (w_mid.name_pointers@.contains_key(n) && w_pre.name_pointers@[n] == w_mid.name_pointers@[n]) || ptr_off(w_pre.name_pointers@[n]) >= w_mid.bytes().len() + 2,
+    ensures w_post.table_good()
+{
+    let idx = w_mid.bytes().len() as int;
+    assert forall|n: DomainName| #[trigger] w_post.name_pointers@.contains_key(n) implies
+        ptr_tagged(w_post.name_pointers@[n]) && !name_is_root(n) && n.wf() && enc_at(w_post.bytes(), ptr_off(w_post.name_pointers@[n]), n) by {
+        let off = ptr_off(w_pre.name_pointers@[n]); let sum = labels_sum(n.labels@) as int;
+        if w_mid.name_pointers@.contains_key(n) && w_pre.name_pointers@[n] == w_mid.name_pointers@[n] {
+            assert(enc_at(w_mid.bytes(), off, n));
+            assert(w_post.bytes().subrange(off, off + sum) =~= w_mid.bytes().subrange(off, off + sum));
+        } else {
+            assert(enc_at(w_pre.bytes(), off, n));
+            assert(w_post.bytes().subrange(off, off + sum) =~= w_pre.bytes().subrange(off, off + sum));
+        }
+    }
+}
+
+pub proof fn lemma_be32_div_mod(v: u32)
+    ensures be32((v / 16777216) as u8, ((v / 65536) % 256) as u8, ((v / 256) % 256) as u8, (v % 256) as u8) == v
+{}
